@@ -91,4 +91,30 @@ def lastOfRuns : List (Pt × Nat) → List (Pt × Nat)
 def canonPix (writes : List (Pt × Nat)) : List (Pt × Nat) :=
   lastOfRuns (writes.mergeSort (fun a b => ptLe a.1 b.1))
 
+/-! Digests for results too long to print (same text as `digest_step` / `map_digest` /
+`str_digest` / `small_map` / `small_text` of harness/src/common.rs): `h = 0`, and for every value
+`v` of a sequence, in order, `h = h * 1000003 + v` in wrapping 64-bit arithmetic. -/
+def digestStep (h v : UInt64) : UInt64 := h * 1000003 + v
+
+/-- `(i as i64 + 2^31) as u64` for an `i32` coordinate. -/
+def coordU64 (i : Int) : UInt64 := UInt64.ofNat (i + 2147483648).toNat
+
+/-- Position- and colour-sensitive digest of a canonical (row-major) pixel map: three steps per
+entry, `y + 2^31`, `x + 2^31`, `colour + 1`. -/
+def pixDigest (m : List (Pt × Nat)) : UInt64 :=
+  m.foldl (fun h w =>
+    digestStep (digestStep (digestStep h (coordU64 w.1.y)) (coordU64 w.1.x)) (UInt64.ofNat (w.2 + 1))) 0
+
+/-- Digest of a text, one step per byte (`byte + 1`). -/
+def strDigest (s : String) : UInt64 :=
+  s.toUTF8.foldl (fun h b => digestStep h (b.toUInt64 + 1)) 0
+
+/-- `small_map`: a canonical pixel map in full up to 600 entries, beyond `big:<n>:<pixDigest>`. -/
+def smallMap (m : List (Pt × Nat)) : String :=
+  if m.length ≤ 600 then fmtPix m else s!"big:{m.length}:{pixDigest m}"
+
+/-- `small_text`: a text in full up to `cap` bytes (ASCII only), beyond `big:<len>:<strDigest>`. -/
+def smallText (s : String) (cap : Nat) : String :=
+  if s.length ≤ cap then s else s!"big:{s.length}:{strDigest s}"
+
 end EG.Driver
